@@ -1,6 +1,7 @@
 package main
 
 import (
+	"crypto/sha1"
 	"fmt"
 	"go/ast"
 	"go/token"
@@ -70,6 +71,7 @@ func newCtx(e *Engine, u *FuncUnit) *Ctx {
 	c.funcKey = u.Pkg.PkgPath + "::" + u.Key
 	c.decl("sort:Str", "(declare-sort Str 0)")
 	c.decl("fun:len!Str", "(declare-fun len!Str (Str) Int)")
+	c.decl("ax:len!Str", "(assert (forall ((s Str)) (! (>= (len!Str s) 0) :pattern ((len!Str s)))))")
 	c.decl("sort:Iface", "(declare-datatypes ((Iface 0)) (((mkI (itag Int) (iref Int)))))")
 	return c
 }
@@ -122,6 +124,12 @@ func (c *Ctx) ensureSort(s Sort) {
 		}
 		// element sort is recorded at creation time
 	default:
+		if strings.HasPrefix(s, "V_") && !c.seen["sort:"+s] {
+			if t := c.eng.lookupVSort(s); t != nil {
+				c.sortOf(t)
+				return
+			}
+		}
 		c.decl("sort:"+s, fmt.Sprintf("(declare-sort %s 0)", s))
 	}
 }
@@ -180,29 +188,72 @@ func (c *Ctx) sortOf(t types.Type) Sort {
 	case *types.Array:
 		return c.sliceSortOf(c.sortOf(u.Elem()))
 	case *types.Struct:
-		name := "V_anon_" + mangle(fmt.Sprintf("%d", u.NumFields()))
+		if a, ok := t.(*types.Alias); ok {
+			return c.sortOf(types.Unalias(a))
+		}
+		name := ""
 		if n, ok := t.(*types.Named); ok {
 			pk := ""
 			if n.Obj().Pkg() != nil {
 				pk = n.Obj().Pkg().Name() + "_"
 			}
 			name = "V_" + pk + n.Obj().Name()
-		} else if a, ok := t.(*types.Alias); ok {
-			return c.sortOf(types.Unalias(a))
 		} else {
-			// anonymous struct: name by field names
+			// anonymous struct: name by field names and types
 			var fs []string
 			for i := 0; i < u.NumFields(); i++ {
-				fs = append(fs, u.Field(i).Name())
+				fs = append(fs, u.Field(i).Name()+"_"+mangle(types.TypeString(u.Field(i).Type(), nil)))
 			}
 			name = "V_anon_" + mangle(strings.Join(fs, "_"))
+			if len(name) > 80 {
+				name = fmt.Sprintf("V_anon_%x", sha1sum(name))
+			}
 		}
-		c.ensureSort(name)
+		c.declStruct(name, u)
 		return name
 	case *types.Tuple:
 		return "Int"
 	}
 	return "Int"
+}
+
+func sha1sum(s string) []byte {
+	h := sha1.Sum([]byte(s))
+	return h[:8]
+}
+
+// structFieldName: selector name of field i (blank fields get an index)
+func structFieldName(u *types.Struct, i int) string {
+	n := u.Field(i).Name()
+	if n == "_" {
+		return fmt.Sprintf("blank%d", i)
+	}
+	return n
+}
+
+// declStruct declares the datatype of a struct value sort (fields first, so nested sorts exist).
+func (c *Ctx) declStruct(name string, u *types.Struct) {
+	if c.seen["sort:"+name] {
+		return
+	}
+	c.seen["sort:"+name] = true
+	var fs []string
+	for i := 0; i < u.NumFields(); i++ {
+		fsort := c.sortOf(u.Field(i).Type())
+		fs = append(fs, fmt.Sprintf("(fld!%s!%s %s)", name, structFieldName(u, i), fsort))
+	}
+	structTypes[name] = u
+	c.decls = append(c.decls, fmt.Sprintf("(declare-datatypes ((%s 0)) (((mk!%s %s))))", name, name, strings.Join(fs, " ")))
+}
+
+var structTypes = map[string]*types.Struct{}
+
+// mkStruct builds a struct value from field values (in field order).
+func mkStruct(s Sort, vals []string) string {
+	if len(vals) == 0 {
+		return "mk!" + s
+	}
+	return "(mk!" + s + " " + strings.Join(vals, " ") + ")"
 }
 
 func pow2(n uint) *big.Int { return new(big.Int).Lsh(big.NewInt(1), n) }
